@@ -7,6 +7,7 @@
 # (and possibly earlier) which uses Python bytecode 2.5.
 
 import struct
+import sys
 import types
 from typing import Dict
 
@@ -261,7 +262,9 @@ def patch(code):
     while i < n:
         op = code[i]
         if not op in table:
-            print("missing opcode %d. code: " % op, repr(str(code)))
+            sys.stderr.write(
+                "missing opcode %d. code: %s\n" % (op, repr(str(code)))
+            )
             misses[op] = misses.get(op, 0) + 1
         code[i] = table.get(op, op)
         i += 1
